@@ -23,6 +23,10 @@ class FeatureIDEReader(TextToModel):
     TAG_FEATURE = "feature"
     TAG_CONSTRAINTS = "constraints"
     TAG_GRAPHICS = "graphics"
+    TAG_DESCRIPTION = "description"
+    TAG_TAGS = "tags"
+    # Elements of a feature or rule that carry no model content
+    TAGS_WITHOUT_CONTENT = (TAG_GRAPHICS, TAG_DESCRIPTION, TAG_TAGS)
 
     # Feature tags
     TAG_AND = "and"
@@ -80,7 +84,7 @@ class FeatureIDEReader(TextToModel):
         feature = None
 
         for child in root_tree:
-            if not child.tag == FeatureIDEReader.TAG_GRAPHICS:
+            if child.tag not in FeatureIDEReader.TAGS_WITHOUT_CONTENT:
                 is_abstract = (
                     FeatureIDEReader.ATTRIB_ABSTRACT in child.attrib
                     and child.attrib[FeatureIDEReader.ATTRIB_ABSTRACT] == "true"
@@ -136,10 +140,10 @@ class FeatureIDEReader(TextToModel):
         number = 1
         constraints = []
         for ctc in ctcs_root:
-            index = 0
-            if ctc[index].tag == FeatureIDEReader.TAG_GRAPHICS:
-                index += 1
-            rule = ctc[index]
+            rule = next((child for child in ctc
+                         if child.tag not in FeatureIDEReader.TAGS_WITHOUT_CONTENT), None)
+            if rule is None:
+                raise FlamaException("Rule without formula in FeatureIDE model")
             ast = self._parse_rule(rule)
             if not ast:
                 raise FlamaException()
